@@ -210,6 +210,8 @@ def work(job):
                     meta_agreement(r, s, rng, src, cli, tdir)
                 if rng.random() < 0.25:
                     meta_after_convert(r, s, rng, src)
+                if i % 50 == 0:
+                    clibatch.flag_relations(r, cli, rng)
                 if i % 25 == 0:
                     feats = set(f for f in ('footer', 'transclude', 'critic', 'title') if rng.random() < 0.5)
                     clibatch.batch_vs_single(r, cli, rng, feats, [[], [], ['-a'], ['-r'], ['--nosmart'], ['-f'], ['-s'], ['-c'], ['--nolabels']])
